@@ -1,5 +1,17 @@
 (* C05: Unmarshal reproduces configuration values in Go structs.
 
+   C05_tree_roundtrip (Proofs/C05Tree.v) starts from the syntax tree of the written text: for every struct type of the
+   family `bfam d` (as `fam` below, and a nested struct field's type name, if it has one, matches the field name --
+   forced by the rule that a struct type's own name must match the block type) and every value v of it (ints in the
+   int64 range, no NaN with the sign bit set), the tree `prog_of_block (tree_of ty v bt)` -- one `def` with a field
+   assignment `k = literal` per scalar field (negative numbers written with unary minus, -2^63 as -(2^63-1) - 1) and a
+   nested `def` per struct field, followed by `bind bt -> struct` -- is accepted by the code generator, the big-step
+   semantics binds exactly that block, Bind stores it into a zero target as exactly v (C05_tree_roundtrip), and
+   executing the generated code does the same (C05_code_roundtrip, via T1; up to the two VM limits).  The slice
+   forms bind `bt:all -> slice` and yield the values in order.  Text -> tokens -> tree (quoting, number printing) is
+   exercised by the harness only.  The statement over `fam`/`blocks_of` with an arbitrary nested type name is FALSE
+   at tree level (C05_tree_roundtrip_counterexample: such blocks are not producible by any BCL text) and is kept
+   only as a statement about Bind:
    C05_bind_roundtrip: for every struct type of the supported family (`fam d`: exported, non-embedded,
    untagged fields of scalar or nested-struct type whose names are pairwise distinct after folding case and
    underscores; nesting depth d <= 64) and every value v of that type, binding the blocks that spell v
@@ -12,6 +24,7 @@
 From Coq Require Import List Lia.
 From BCL Require Import Model.Reflect Proofs.ReflectProofs.
 Open Scope N_scope.
+From BCL Require Import Model.Api Model.Compile Spec.Syntax Spec.AstSem Proofs.T1Expr Proofs.T1Proofs Proofs.C05Tree.
 
 Theorem C05_bind_roundtrip : forall d tn fs l bt,
   fam d (TStruct tn fs) -> (d <= 64)%nat -> inhabits (TStruct tn fs) (GStruct l) ->
@@ -41,6 +54,75 @@ Print Assumptions C05_slice_discards_old.
 Theorem C05_key_order_irrelevant : forall tg b1 b2, veq b1 b2 -> bind tg (BdStruct b1) = bind tg (BdStruct b2).
 Proof. first [exact ReflectProofs.C16_bind_order_deep | apply ReflectProofs.C16_bind_order_deep]. Qed.
 Print Assumptions C05_key_order_irrelevant.
+
+(* value -> tree -> semantics -> Bind = value *)
+Theorem C05_tree_roundtrip : forall d tn fs l bt,
+  bfam d (TStruct tn fs) -> (d <= 64)%nat -> inhabits (TStruct tn fs) (GStruct l) ->
+  (tn = [] \/ unsnake_eq tn bt = true) ->
+  vals_ok (GStruct l) ->
+  let b := tree_of (TStruct tn fs) (GStruct l) bt in
+  exists en b', run_program (prog_of_block b) = (ROk tt, en) /\
+    binding_ en = Some (SStruct b') /\ veq b' b /\
+    bind (TgtPtr (TStruct tn fs) GZero) (BdStruct b') = BOk (GPtrTo (GStruct l)).
+Proof. first [exact C05Tree.C05_tree_roundtrip_bfam | apply C05Tree.C05_tree_roundtrip_bfam]. Qed.
+Print Assumptions C05_tree_roundtrip.
+
+(* value -> tree -> generated code -> VM -> Bind = value *)
+Theorem C05_code_roundtrip : forall d tn fs l bt name pos lfs,
+  bfam d (TStruct tn fs) -> (d <= 64)%nat -> inhabits (TStruct tn fs) (GStruct l) ->
+  (tn = [] \/ unsnake_eq tn bt = true) ->
+  vals_ok (GStruct l) ->
+  let b := tree_of (TStruct tn fs) (GStruct l) bt in
+  csize b + 1 < 2^64 ->
+  let rr := execute (prog_of_tree (prog_of_block b) name pos lfs) false false in
+  hadError (compile_program (prog_of_block b)) = false /\
+  (limit_res (rr_res rr) \/
+   exists b', rr_res rr = VOk /\ rr_binding rr = BStruct b' /\ print_lines (rr_out rr) = [] /\ rr_warn rr = [] /\
+     bind (TgtPtr (TStruct tn fs) GZero) (BdStruct b') = BOk (GPtrTo (GStruct l))).
+Proof. first [exact C05Tree.C05_code_roundtrip_bfam | apply C05Tree.C05_code_roundtrip_bfam]. Qed.
+Print Assumptions C05_code_roundtrip.
+
+Theorem C05_tree_roundtrip_slice : forall d tn fs vals bt v0,
+  bfam d (TStruct tn fs) -> (d <= 64)%nat -> vals <> [] ->
+  Forall (fun v => inhabits (TStruct tn fs) v /\ vals_ok v) vals ->
+  (tn = [] \/ unsnake_eq tn bt = true) ->
+  let bl := map (fun v => tree_of (TStruct tn fs) v bt) vals in
+  exists en bl', run_program (prog_of_blocks bt bl) = (ROk tt, en) /\
+    binding_ en = Some (SSlice bl') /\ Forall2 veq bl' bl /\
+    bind (TgtPtr (TSlice (TStruct tn fs)) v0) (BdSlice bl') = BOk (GPtrTo (GSlice vals)).
+Proof. first [exact C05Tree.C05_tree_roundtrip_slice_bfam | apply C05Tree.C05_tree_roundtrip_slice_bfam]. Qed.
+Print Assumptions C05_tree_roundtrip_slice.
+
+Theorem C05_code_roundtrip_slice : forall d tn fs vals bt v0 name pos lfs,
+  bfam d (TStruct tn fs) -> (d <= 64)%nat -> vals <> [] ->
+  Forall (fun v => inhabits (TStruct tn fs) v /\ vals_ok v) vals ->
+  (tn = [] \/ unsnake_eq tn bt = true) ->
+  let bl := map (fun v => tree_of (TStruct tn fs) v bt) vals in
+  csizes bl + 1 < 2^64 ->
+  let rr := execute (prog_of_tree (prog_of_blocks bt bl) name pos lfs) false false in
+  hadError (compile_program (prog_of_blocks bt bl)) = false /\
+  (limit_res (rr_res rr) \/
+   exists bl', rr_res rr = VOk /\ rr_binding rr = BSlice bl' /\ print_lines (rr_out rr) = [] /\ rr_warn rr = [] /\
+     bind (TgtPtr (TSlice (TStruct tn fs)) v0) (BdSlice bl') = BOk (GPtrTo (GSlice vals))).
+Proof. first [exact C05Tree.C05_code_roundtrip_slice_bfam | apply C05Tree.C05_code_roundtrip_slice_bfam]. Qed.
+Print Assumptions C05_code_roundtrip_slice.
+
+Theorem C05_tree_bind_roundtrip : forall d tn fs l bt,
+  bfam d (TStruct tn fs) -> (d <= 64)%nat -> inhabits (TStruct tn fs) (GStruct l) ->
+  (tn = [] \/ unsnake_eq tn bt = true) ->
+  bind (TgtPtr (TStruct tn fs) GZero) (BdStruct (tree_of (TStruct tn fs) (GStruct l) bt)) = BOk (GPtrTo (GStruct l)).
+Proof. first [exact C05Tree.tree_bind_roundtrip | apply C05Tree.tree_bind_roundtrip]. Qed.
+Print Assumptions C05_tree_bind_roundtrip.
+
+(* every scalar is denoted by its literal expression *)
+Theorem C05_literals : forall v en, scalar_ok v -> eval (lit_expr v) en = (ROk v, en).
+Proof. first [exact C05Tree.eval_lit_expr | apply C05Tree.eval_lit_expr]. Qed.
+Print Assumptions C05_literals.
+
+(* the semantics of a written block is that block *)
+Theorem C05_run_tree : forall b, wf_block b -> run_program (prog_of_block b) = (ROk tt, env_bound b).
+Proof. first [exact C05Tree.run_prog_of_block | apply C05Tree.run_prog_of_block]. Qed.
+Print Assumptions C05_run_tree.
 
 (* non-vacuity: an ordinary member of the family and a value of it *)
 Example C05_example_holds : fam 2 c05_type /\ inhabits c05_type c05_val.
